@@ -18,6 +18,8 @@ func main() {
 	switch os.Args[1] {
 	case "symx":
 		os.Exit(cmdSymx(os.Args[2:]))
+	case "replay":
+		os.Exit(cmdReplay(os.Args[2:]))
 	case "fplemma":
 		os.Exit(cmdFpLemma())
 	case "corpus":
